@@ -1576,3 +1576,66 @@ class AddConstraint(Contract):
 
     def counts(self, c, v, w, y, check=True):
         return (0, 1, 2) if guarded(c) else (0, 0, 1)
+
+
+# ---------------------------------------------------------------------------
+# a secret never turns into a plain Python value behind the caller's back: bool()/int() are refused, the other
+# numeric conversions decline (C05: "or raises"; C06: no plain control flow can depend on a secret)
+# ---------------------------------------------------------------------------
+
+class _NoPlain(Contract):
+    facets = "VRTNK"
+    vprops = ("C05", "C06")
+    sprops = eprops = cprops = ()
+    tprops = ("C06",)
+    guard_relevant = False
+    owner = "LinComb"
+    method = None
+    must_raise = None
+    modules = ("pysnark.runtime", "pysnark.boolean", "pysnark.fixedpoint", "pysnark.branching")
+
+    def configs(self, tier):
+        return [dict(mode=m, **({"raises_only": True} if self.must_raise else {})) for m in ("plain", "ie")]
+
+    def setup(self, c, cfg):
+        apply_mode(c, cfg["mode"])
+        x = c.operand("x")
+        if self.owner == "LinCombBool":
+            x = c.operand_bool("x")
+        elif self.owner == "LinCombFxp":
+            x = c.mk_fxp(x)
+        extra = {"__round__": (None,), "__deepcopy__": ({},), "__matmul__": (3,), "__rmatmul__": (3,), "__rpow__": (2,),
+                 "__rlshift__": (2,), "__rrshift__": (2,)}.get(self.method, ())
+        return getattr(getattr(c, self.owner), self.method), (x,) + extra, {}
+
+    def use_stub(self, c, *a, **k):
+        return False
+
+    covers_normal = False
+
+    def raises(self, c, x, *a):
+        return [(self.must_raise, True)] if self.must_raise else []
+
+    def post(self, c, r, x, *a):
+        if self.must_raise:
+            return {"V.refused": False}
+        if self.method in ("__pos__", "__deepcopy__"):
+            return {"V.same_object": r is x}
+        # anything that is not "declined" must still be a secret object (never a plain number derived from the value)
+        return {"V.declined_or_secret": r is NotImplemented or hasattr(r, "lc")}
+
+    def counts(self, c, x, *a):
+        return (0, 0, 0)
+
+
+for _owner, _m, _exc in (("LinComb", "__bool__", NotImplementedError), ("LinComb", "__int__", NotImplementedError),
+                         ("LinComb", "__float__", None), ("LinComb", "__complex__", None), ("LinComb", "__round__", None),
+                         ("LinComb", "__trunc__", None), ("LinComb", "__floor__", None), ("LinComb", "__ceil__", None),
+                         ("LinComb", "__matmul__", None), ("LinComb", "__rmatmul__", None), ("LinComb", "__pos__", None),
+                         ("LinComb", "__deepcopy__", None),
+                         ("LinCombFxp", "__int__", NotImplementedError), ("LinCombFxp", "__bool__", NotImplementedError),
+                         ("LinCombBool", "__bool__", NotImplementedError)):
+    _mod = {"LinComb": "pysnark.runtime", "LinCombFxp": "pysnark.fixedpoint", "LinCombBool": "pysnark.boolean"}[_owner]
+    register(type("NoPlain_%s_%s" % (_owner, _m.strip("_")), (_NoPlain,),
+                  dict(name="%s:%s.%s" % (_mod, _owner, _m), owner=_owner, method=_m, must_raise=_exc,
+                       __doc__="%s.%s: a secret is never converted to a plain value" % (_owner, _m))))
